@@ -29,7 +29,7 @@ func (o opT) enc() []int64 {
 	switch o.Code {
 	case 1:
 		p := o.Pod
-		return []int64{1, p.ID, p.Job, p.Node, p.Phase, vh.B(p.Deleting), p.Role, p.Prio, vh.B(p.Preempt), p.CPU, p.Mem, p.GPU}
+		return []int64{1, p.ID, p.Job, p.Node, p.Phase, vh.B(p.Deleting), p.Role, p.Prio, vh.B(p.Preempt), p.CPU, p.Mem, p.GPU, p.Cond}
 	case 3:
 		n := o.Node
 		out := []int64{3, n.ID, n.CPU, n.Mem, n.Pods, n.GPU}
@@ -111,7 +111,7 @@ func decCase(in []int64) (ops []opT, ok bool) {
 			p.Role = pos()
 			p.Prio = next()
 			p.Preempt = next() != 0
-			p.CPU, p.Mem, p.GPU = next(), next(), next()
+			p.CPU, p.Mem, p.GPU, p.Cond = next(), next(), next(), next()
 			if p.CPU < 0 || p.Mem < 0 || p.GPU < 0 {
 				fail = true
 			}
@@ -140,7 +140,7 @@ func decCase(in []int64) (ops []opT, ok bool) {
 		case 11:
 			o.A = []int64{pos(), pos(), pos()}
 			o.F = next()
-			if o.F < 0 || o.F > 3 {
+			if o.F < 0 || o.F > 4 {
 				fail = true
 			}
 			o.OK = o.F == 1
